@@ -55,6 +55,59 @@ def post(chk, recs, cases):
             chk.notes.append("largest tree: %s cliques; largest pattern: %s vertices" % (st.get("max_cliques"), st.get("max_vertices")))
 
 
+
+def exhaustive7(chk):
+    """thorough tier: ALL 2^21 labelled graphs on 7 vertices x 3 strategies through the checker
+    extracted to OCaml (ExtrOcamlBasic only); any failure is replayed through the Coq-evaluated path."""
+    import shutil
+    import subprocess
+    import concurrent.futures
+    xd = os.path.join(chk.wdir, "extract")
+    os.makedirs(xd, exist_ok=True)
+    for f in ("c17_extract.v", "c17_driver.ml"):
+        shutil.copy(os.path.join(core.VERIF, "extract", f), os.path.join(xd, f))
+    rc, out, dt = core.sh(["coqc", "-noglob", "-Q", os.path.join(core.COQ, "theories"), "Clarabel", "c17_extract.v"], timeout=600, cwd=xd)
+    if rc == 0:
+        rc, out, dt = core.sh("ocamlfind ocamlopt -O3 -w -a c17chk.mli c17chk.ml c17_driver.ml -o c17chk", timeout=600, cwd=xd)
+    if rc != 0:
+        return ["extraction / OCaml build of the checker failed: " + out[-600:]], []
+    exe = os.path.join(core.BUILD, "target", "debug", "c17")
+    nsh = 64
+
+    def one(i):
+        cmd = "%s --exn 7 %d %d --out /dev/stdout | %s" % (exe, i, nsh, os.path.join(xd, "c17chk"))
+        p = subprocess.run(cmd, shell=True, cwd=xd, stdout=subprocess.PIPE, stderr=subprocess.DEVNULL, text=True, timeout=3000)
+        return p.stdout
+    done, fails = 0, []
+    per = 3 * (2 ** 21 // nsh)
+
+    def parse(outp):
+        d, fl = 0, []
+        for ln in outp.splitlines():
+            t = ln.split()
+            if t and t[0] == "DONE":
+                d += int(t[1])
+            elif t and t[0] == "FAIL":
+                fl.append({"n": int(t[1]), "bits": int(t[2]), "strategy": int(t[3]), "code": int(t[4])})
+        return d, fl
+    with concurrent.futures.ThreadPoolExecutor(max_workers=core.NCPU) as ex:
+        results = list(ex.map(one, range(nsh)))
+    for i, outp in enumerate(results):
+        d, fl = parse(outp)
+        if d != per:
+            # a shard was cut short (e.g. the OS refused a thread under load): run it again, alone
+            chk.notes.append("exhaustive n=7: shard %d returned %d of %d outcomes, re-run" % (i, d, per))
+            d, fl = parse(one(i))
+        done += d
+        fails.extend(fl)
+    problems = []
+    if done != 3 * 2 ** 21:
+        problems.append("exhaustive 7-vertex run incomplete: %d of %d outcomes checked" % (done, 3 * 2 ** 21))
+    chk.notes.append("exhaustive n=7: %d outcomes (2^21 graphs x 3 strategies) checked by the extracted check_tree, %d rejected" % (done, len(fails)))
+    chk.log("exhaustive7: %d outcomes, %d rejected" % (done, len(fails)))
+    return problems, fails
+
+
 SPEC = {
     "props_file": "C17.v",
     "targets": ["theories/Props/C17.vo", "theories/Chordal/Check.vo"],
@@ -65,7 +118,7 @@ SPEC = {
     "diagnose": diagnose,
     "post": post,
     "what": "a tree produced by the implementation's chordal analysis is rejected by the proved checker check_tree (or the analysis crashed / hung / left a non-dense multi-clique pattern undecomposed)",
-    "rule": "cases = (sparsity pattern, the three merge strategies) : every labelled graph on 1..6 vertices (quick) / 1..7 (thorough), random banded / arrow / block-diagonal / disconnected / clique-tree chordal (deep, star) / Erdos-Renyi / cycle / grid patterns up to 300 vertices, presentation variants (diagonal absent, entries in b), plus union-find operation sequences; non-trivial = at least one off-diagonal entry (resp. one union); distinct = distinct input JSON",
+    "rule": "cases = (sparsity pattern, the three merge strategies) : every labelled graph on 1..6 vertices (quick; evaluated inside Coq) / additionally all 2^21 labelled graphs on 7 vertices (thorough; checker extracted to OCaml, failures replayed inside Coq), random banded / arrow / block-diagonal / disconnected / clique-tree chordal (deep, star) / Erdos-Renyi / cycle / grid patterns up to 300 vertices, presentation variants (diagonal absent, entries in b), plus union-find operation sequences; non-trivial = at least one off-diagonal entry (resp. one union); distinct = distinct input JSON",
     "level": "translation_validation",
     "explanation": "Every clique tree the implementation returns (through ChordalInfo::new, the solver's own path) is checked inside Coq by check_tree, proved sound w.r.t. ValidTree (ordering permutation, consecutive supernode partition, coverage of every structural nonzero, parent later in post-order, separator = clique /\\ parent clique, running intersection, nblk). Undecomposed patterns must be dense or single-clique. The union-find, post_order and triangular index maps are proved correct as components; the merge strategies themselves are validated, not proved.",
     "assumptions": ["the universal claim for the merge strategies is established only on the explored patterns (exhaustive bound stated in the rule)",
@@ -96,4 +149,28 @@ def run(chk, replay=None):
                         chk.violation({"property": "C17", "kind": "corpus-regression", "input": case.get("input"), "code": code, "coq": case.get("coq"),
                                        "diagnosis": diagnose(chk, case)})
                 chk.notes.append("corpus: %d regression cases replayed, %d failing" % (len(cases), len([b for b in bad if b[1] != 2])))
+    if replay is None and chk.tier == "thorough":
+        hok, hout = chk.build_harness(bin="c17")
+        if hok:
+            problems, fails = exhaustive7(chk)
+            seen = set()
+            cases7 = []
+            for f in fails:
+                if f["bits"] not in seen and len(seen) < 40:
+                    seen.add(f["bits"])
+                    cases7.append({"n": f["n"], "bits": f["bits"]})
+            if cases7:
+                cf = os.path.join(chk.wdir, "ex7_fail_C17.json")
+                json.dump({"cases": cases7}, open(cf, "w"))
+                rc, out, recs = chk.run_harness(["--seed", str(chk.seed), "--tier", chk.tier, "--replay", cf], "ex7_cases_C17.jsonl", timeout=900, bin="c17")
+                cases = [r for r in recs if "coq" in r]
+                bad, errors = chk.coq_eval(HEADER, cases, tag="ex7")
+                for case, code in bad:
+                    if code != 2:
+                        chk.violation({"property": "C17", "kind": "exhaustive-7", "input": case.get("input"), "code": code, "coq": case.get("coq"), "diagnosis": diagnose(chk, case)})
+                if not [b for b in bad if b[1] != 2]:
+                    problems.append("extracted checker rejected %d outcomes that the Coq-evaluated checker accepts (extraction tie broken)" % len(fails))
+            for pr in problems:
+                chk.violation({"property": "C17", "kind": "proof-or-tie-broken", "broken": [pr]}, suffix="no-failing-input-found")
+            SPEC.setdefault("extra", {})["exhaustive_7_vertices"] = {"outcomes_checked": 3 * 2 ** 21 if not problems else "incomplete", "rejected": len(fails), "engine": "check_tree extracted to OCaml (ExtrOcamlBasic)"}
     return standard.run_standard(chk, SPEC, replay)
